@@ -83,6 +83,11 @@ class Gen:
             if r.random() < 0.3:
                 comment = "c %s %d" % (nm, r.randint(0, 99))
                 self.tags.add("declarator-comment")
+                if r.random() < 0.35:
+                    # escaped quotes inside, at the start and at the very end of the comment (the raw text, escapes
+                    # included, is what the parser keeps)
+                    comment = r.choice(['say \\"%s\\"' % nm, '\\"%s\\" quoted first' % nm, 'mid \\"q\\" dle %s' % nm, '\\"'])
+                    self.tags.add("comment-with-escaped-quotes")
             decls.append({"name": nm, "dims": dims, "mods": mods, "value": value, "comment": comment})
             if typ == "Real" and not dims and not (set(pf) & {"parameter", "constant"}):
                 real_names.append(nm)
@@ -109,6 +114,9 @@ class Gen:
         if r.random() < 0.3:
             c["comment"] = "class %s comment" % name
             self.tags.add("class-comment")
+            if r.random() < 0.3:
+                c["comment"] = 'class %s is \\"special\\"' % name
+                self.tags.add("comment-with-escaped-quotes")
         reals = []
         sections = [("first", None)]
         nsec = r.randint(0, 3)
